@@ -119,6 +119,11 @@ def v_rules(schema: Schema, rep: Report):
         apps = [c for c in own_nodes(fn) if isinstance(c, ast.Call) and isinstance(c.func, ast.Attribute) and text(c.func.value) == "self" and c.func.attr in ("append", "insert", "extend")]
         ok = ok and bool(apps) and all(c.func.attr == "append" for c in apps)
         rep.check("V-R2", f"{qn}:in-argument-order", ok, "list members are not appended one by one in argument order" if not ok else "", f"{rel}:{fn.lineno}")
+        # ... and ALL of them: the arguments are not re-bound to a selection / re-ordering of themselves before the loop
+        # (dict.fromkeys / set / sorted / filter / a slice): a list that repeats a token (LANGUAGE ENG, FRA, ENG) loses members
+        if va:
+            rebound = [s_ for s_ in ast.walk(fn) if isinstance(s_, (ast.Assign, ast.AugAssign, ast.AnnAssign)) and any(isinstance(t_, ast.Name) and t_.id == va for t_ in (s_.targets if isinstance(s_, ast.Assign) else [s_.target]))]
+            rep.check("V-R2", f"{qn}:every-argument-kept", not rebound, f"`{text(rebound[0])[:60]}` re-binds the positional members before they are appended: repeated members are dropped or the order changes, so the model's list is not the document's" if rebound else "", f"{rel}:{(rebound[0] if rebound else fn).lineno}")
 
     rep.rule("V-R4", "Element.__set_name__ records the attribute name; __set__ stores under that name on the instance; __get__ reads the same slot (locals expanded, every returning path)")
     from .paths import return_paths
